@@ -13,6 +13,11 @@ pub fn run(args: &[String]) {
         };
         let res = match mode {
             "comp" => crate::comp::run_case(&line),
+            "peaks" => crate::peaks::run_peaks(&line),
+            "poisson" => crate::peaks::run_poisson(&line),
+            "conv" => crate::gens::run_conv(&line),
+            "brain" => crate::gens::run_brain(&line),
+            "brainhist" => crate::gens::run_brainhist(&line),
             _ => "bad-mode".to_string(),
         };
         let _ = writeln!(out, "{res}");
